@@ -44,6 +44,9 @@ func rolesFor(prop string, t *Ty) []string {
 	case "C03":
 		return []string{"compare", "comparec", "equal"}
 	case "C04":
+		if t.has("anon") {
+			return []string{"hash", "equal"} // DeepCopy refuses anonymous struct fields
+		}
 		return []string{"hash", "equal", "clone"}
 	case "C05":
 		switch t.Kind {
@@ -60,6 +63,9 @@ func buildRecCases(prop, tier string) ([]*e1Case, string) {
 	var cases []*e1Case
 	n := 0
 	add := func(t *Ty) {
+		if t.has("anon") && prop != "C02" && prop != "C04" {
+			return // anonymous struct fields: Equal and Hash only
+		}
 		n++
 		cases = append(cases, &e1Case{ID: fmt.Sprintf("c%d", n), Ty: t, Roles: rolesFor(prop, t)})
 	}
